@@ -1,0 +1,32 @@
+//go:build verif
+
+package io
+
+import (
+	"os"
+	"time"
+)
+
+// Hooks for the /verif correspondence harness (property C16). Add-only, built
+// only with the "verif" tag.
+
+// VerifDirState exposes the bookkeeping of a directory: whether it currently is
+// a HAMTDirectory, its estimatedSize (basic) or sizeChange (HAMT), its
+// totalLinks counter and its per-directory hamtShardingSize.
+func VerifDirState(d Directory) (hamt bool, size, totalLinks, shardingSize int) {
+	if dd, ok := d.(*DynamicDirectory); ok {
+		d = dd.Directory
+	}
+	switch v := d.(type) {
+	case *BasicDirectory:
+		return false, v.estimatedSize, v.totalLinks, v.hamtShardingSize
+	case *HAMTDirectory:
+		return true, v.sizeChange, v.totalLinks, v.hamtShardingSize
+	}
+	return false, 0, 0, 0
+}
+
+// VerifDataFieldSize is dataFieldSerializedSize.
+func VerifDataFieldSize(mode os.FileMode, mtime time.Time) int {
+	return dataFieldSerializedSize(mode, mtime)
+}
